@@ -80,31 +80,92 @@ func c09Apply(m *cors.Middleware, op int) (err error) {
 	return nil
 }
 
-// c09Observe reads (cfg, debug) off the middleware through its public behaviour.
-func c09Observe(m *cors.Middleware) (c09State, string) {
-	ok := serve(m, preflightReq("https://a.example", "GET", nil, false))
+// Observation: after every step the middleware must answer a probe suite exactly as a FRESH middleware
+// in the model's state does (golden answers recorded beforehand), and Config() must be nil exactly for
+// passthrough. The probes include debug-sensitive preflights (failing at the method, header and PNA
+// steps, where debug mode shows the configured header list) so that stale per-state data shows up.
+var c09Probes = []Req{
+	preflightReq("https://a.example", "GET", nil, false),
+	preflightReq("https://a.example", "VERIFUNLISTED", nil, false),
+	preflightReq("https://a.example", "GET", []string{"x-a"}, false),
+	preflightReq("https://a.example", "GET", []string{"x-b"}, false),
+	preflightReq("https://a.example", "GET", []string{"x-unlisted"}, false),
+	preflightReq("https://b.example", "GET", nil, false),
+	preflightReq("https://a.example", "PUT", nil, false),
+	preflightReq("https://a.example", "DELETE", []string{"x-a"}, false),
+	preflightReq("https://a.example", "GET", nil, true),
+	actualReq("GET", "https://a.example"),
+	actualReq("GET", "https://b.example"),
+	actualReq("OPTIONS", "https://b.example"),
+	buildReq("GET", nil, nil, nil, nil, nil),
+	buildReq("OPTIONS", nil, nil, nil, nil, nil),
+}
+
+var c09States = []c09State{{0, false}, {1, false}, {1, true}, {2, false}, {2, true}}
+
+type c09GoldenT map[c09State][]Obs
+
+var c09Golden c09GoldenT
+
+func buildC09Golden() (c09GoldenT, error) {
+	g := c09GoldenT{}
+	for _, st := range c09States {
+		var m *cors.Middleware
+		switch st.cfg {
+		case 0:
+			m = new(cors.Middleware)
+		case 1:
+			a := c09A
+			mm, err := cors.NewMiddleware(a)
+			if err != nil {
+				return nil, err
+			}
+			m = mm
+		case 2:
+			b := c09B
+			mm, err := cors.NewMiddleware(b)
+			if err != nil {
+				return nil, err
+			}
+			m = mm
+		}
+		m.SetDebug(st.debug)
+		for _, q := range c09Probes {
+			g[st] = append(g[st], serve(m, q))
+		}
+	}
+	// pairwise distinguishable?
+	for i, a := range c09States {
+		for _, b := range c09States[i+1:] {
+			if firstDiff(g[a], g[b]) < 0 {
+				return nil, fmt.Errorf("states %s and %s are indistinguishable by the probe suite", a, b)
+			}
+		}
+	}
+	return g, nil
+}
+
+// c09Observe returns the state whose golden answers the middleware reproduces, or a description of the mismatch
+// with respect to the expected state.
+func c09Observe(m *cors.Middleware, want c09State) (c09State, string) {
+	got := make([]Obs, len(c09Probes))
+	for i, q := range c09Probes {
+		got[i] = serve(m, q)
+	}
 	cfgNil := m.Config() == nil
-	var st c09State
-	switch {
-	case ok.Calls == 1 && cfgNil:
-		return c09State{0, false}, ""
-	case ok.Calls == 0 && ok.Status == 201 && equalStrings(ok.get(hACMA), []string{"111"}) && !cfgNil:
-		st.cfg = 1
-	case ok.Calls == 0 && ok.Status == 202 && equalStrings(ok.get(hACMA), []string{"222"}) && !cfgNil:
-		st.cfg = 2
-	default:
-		return st, fmt.Sprintf("unidentifiable configuration: succeeding-preflight probe answered %s, Config()==nil is %v", ok, cfgNil)
+	if firstDiff(c09Golden[want], got) < 0 && cfgNil == (want.cfg == 0) {
+		return want, ""
 	}
-	fp := serve(m, preflightReq("https://a.example", "VERIFUNLISTED", nil, false))
-	switch {
-	case fp.Calls == 0 && fp.ok2xx() && len(fp.get(hACAO)) == 1:
-		st.debug = true
-	case fp.Calls == 0 && !fp.ok2xx() && len(fp.get(hACAO)) == 0:
-		st.debug = false
-	default:
-		return st, fmt.Sprintf("unidentifiable debug mode: failing-preflight probe answered %s", fp)
+	for _, st := range c09States {
+		if firstDiff(c09Golden[st], got) < 0 && cfgNil == (st.cfg == 0) {
+			return st, ""
+		}
 	}
-	return st, ""
+	d := firstDiff(c09Golden[want], got)
+	if d < 0 {
+		return want, fmt.Sprintf("Config()==nil is %v in state %s", cfgNil, want)
+	}
+	return want, fmt.Sprintf("the answers match no state of the machine; with respect to %s the answer to %s is %s instead of %s", want, reqString(c09Probes[d]), got[d], c09Golden[want][d])
 }
 
 type c09Case struct {
@@ -143,9 +204,9 @@ func c09RunHistory(r *Run, l *Local, cs c09Case, st *c09Stats) {
 	}
 	check := func(step int) bool {
 		l.evals++
-		got, problem := c09Observe(m)
+		got, problem := c09Observe(m, model)
 		if problem != "" {
-			r.Violate("unobservable-state", "S6", fmt.Sprintf("history [%s], after step %d: %s (model state %s)", cs, step, problem, model), cs)
+			r.Violate("state-matches-no-fresh-middleware", "S6", fmt.Sprintf("history [%s], after step %d: %s", cs, step, problem), cs)
 			return false
 		}
 		if got != model {
@@ -342,11 +403,16 @@ func c09bRun(r *Run, l *Local, spec *CfgSpec, sem *Sem, mws [2]*cors.Middleware,
 
 func TestVerif_C09(t *testing.T) {
 	r := newRun(t, "C09")
-	r.Rule("(1) every history over {SetDebug(true), SetDebug(false), Reconfigure(nil), Reconfigure(A), Reconfigure(B), Reconfigure(invalid)} up to length N from NewMiddleware(A) and from the zero value, the state (configuration, debug) observed through probes after every step and compared with the documented state machine; PRNG histories of length 30. " +
+	r.Rule("(1) every history over {SetDebug(true), SetDebug(false), Reconfigure(nil), Reconfigure(A), Reconfigure(B), Reconfigure(invalid)} up to length N from NewMiddleware(A) and from the zero value, after every step the answers to a 14-request probe suite (incl. preflights failing at the method, header and PNA steps, which show debug mode and the configured header list) and Config()==nil compared with the golden answers of a fresh middleware in the state the documented state machine prescribes; PRNG histories of length 30. " +
 		"(2) debug-invariance: C02 configuration product x hostile and browser-shaped requests answered with debug off and on: non-preflights identical; succeeding preflights identical up to ACAH carrying the full configured list; failing preflights may only gain an ok status and a subset of ACAO/ACAC/ACAPN/ACAM/ACAH/ACMA and must still fail a browser's preflight check. " +
 		"evaluation = one observed step (1) or one request pair (2); non-trivial = distinct (history prefix) resp. preflight pair, distinct by construction / hash")
 	r.Assume("A and B have discrete method lists, distinct max-age and success status, so that (configuration, debug) is observable from outside")
 
+	var gerr error
+	c09Golden, gerr = buildC09Golden()
+	if gerr != nil {
+		t.Fatalf("C09 golden: %v", gerr)
+	}
 	mon := replayMonitor()
 	if mon == "S6" {
 		var rc c09Case
